@@ -76,7 +76,8 @@ func (w *walker) walkV(t *TypeD, rv reflect.Value, path string, nocopy bool) {
 		if rv.IsNil() {
 			return
 		}
-		if rv.Cap() > 0 || nocopy {
+		{
+			// also a zero-capacity slice points somewhere: it must not be into the input
 			p := rv.Pointer()
 			w.regs = append(w.regs, region{path: path, kind: "binary", lo: p, hi: p + uintptr(rv.Cap()), align: 1,
 				nocopy: nocopy, length: rv.Len(), capa: rv.Cap(), obj: w.obj})
@@ -186,7 +187,7 @@ func (c *stepCtx) stepWalk(st map[string]interface{}) string {
 			b.WriteByte(',')
 		}
 		off := -1
-		if in, ok := inputs[r.obj]; ok && r.lo >= in.lo && r.lo <= in.hi {
+		if in, ok := inputs[r.obj]; ok && r.lo >= in.lo && r.lo < in.hi {
 			off = int(r.lo - in.lo)
 		}
 		fmt.Fprintf(&b, `{"obj":%d,"path":%q,"kind":%q,"lo":%d,"hi":%d,"mis":%d,"hasptr":%v,"nocopy":%v,"len":%d,"cap":%d,"off":%d,"keys":[%s]}`,
